@@ -103,6 +103,10 @@ Definition model_alias (copy : bool) (arrs : list (mat Z)) (ls : list nat) (h' :
             (map (fun i => existsb (Nat.eqb i) (owned h' o)) (seq 0 (length arrs)))
             (nat_list_eqb (lst h' 0) ls).
 
+(* tucker_mode_dot on the heap: arrays and core never change; copy=True: the caller's list untouched, nothing shared with the result *)
+Definition tk_alias_okb (copy : bool) (before after : list (mat Z)) (core core_after : tensor Z) (shared : list bool) (core_shared list_same : bool) : bool :=
+  list_eqb zmat_eqb before after && zt_eqb core core_after &&
+  (if copy then negb (existsb (fun b => b) shared) && negb core_shared && list_same else true).
 Inductive body :=
 | ZDense (w : list Z) (fs : list (mat Z)) (expected : tensor Z)
 | ZFlip (w : list Z) (fs : list (mat Z)) (mode : nat) (expected : res (list Z * list (mat Z)))
@@ -143,6 +147,8 @@ Inductive body :=
            (expected : res (list nat * (list Z * list (mat Z)))) (after : list (mat Z)) (shared : list bool) (list_same : bool)
 | ZHeapSeq (arrs : list (mat Z)) (ls : list nat) (w : option nat) (is_class : bool) (ops : list (nat * operand (F:=Z) * nat * bool))
            (expected : res (list (list nat * (list Z * list (mat Z))))) (after : list (mat Z)) (shared : list bool) (list_same : bool)
+| ZTkHeap (core : tensor Z) (arrs : list (mat Z)) (ls : list nat) (copy : bool) (x : operand (F:=Z)) (mode : nat) (keep_dim : bool)
+          (expected : res (tensor Z * list (mat Z))) (after : list (mat Z)) (core_after : tensor Z) (shared : list bool) (core_shared list_same : bool)
 | QAlign (norm_t : bool) (rw : list Q) (rfs : list (mat Q)) (tw : list Q) (tfs : list (mat Q)) (tA tB : list (list Q)) (perm : list nat).
 
 Definition agree_body (b : body) : bool :=
@@ -226,6 +232,18 @@ Definition agree_body (b : body) : bool :=
                               (map (fun i => existsb (fun o => existsb (Nat.eqb i) (owned h' o)) objs) (seq 0 (length arrs)))
                               (nat_list_eqb (lst h' 0) ls))
                    (alias_okb true arrs after shared same)
+      | Err, Err => true
+      | _, _ => false
+      end
+  | ZTkHeap core arrs ls cp x m kd e after core_after shared core_shared same =>
+      let th0 := mk_theap [core] arrs [ls] in
+      match tucker_mode_dot_h Zops th0 0 0 cp x m kd, e with
+      | Ok (th', (cl', fl')), Ok e' =>
+          ztk_dense_eqb (tread th' cl' fl') e' &&
+          Bool.eqb (tk_alias_okb cp arrs (firstn (length arrs) (t_arr th')) core (tcore th' 0)
+                                 (map (fun i => existsb (Nat.eqb i) (tlst th' fl')) (seq 0 (length arrs)))
+                                 (Nat.eqb cl' 0) (nat_list_eqb (tlst th' 0) ls))
+                   (tk_alias_okb cp arrs after core core_after shared core_shared same)
       | Err, Err => true
       | _, _ => false
       end
